@@ -1,66 +1,42 @@
-(* C01 -- the full statement is FALSE of the faithful model (hence of the printer): witnesses.
+(* C01 -- what is still FALSE of the faithful model (hence of the printer) at this revision.
 
    Full statement:  for every tree the parser can produce, printing and re-parsing gives the same tree:
        C01_full := forall e, (exists ts, parse ts = Some e) -> parse (pp e) = Some e.
-   Each witness below is a tree in the parser's image whose printed text parses to a DIFFERENT tree
-   (or, for the last one, whose printed characters lex to different tokens).  The harness replays the same
-   inputs on the real parser / printer (corpus: the REPLAYS of harness/props/c01.py). *)
+   The witnesses recorded here before the printer repairs ( (-5)^2, (NOT x) = 2, (<T>x){a}, DETACHED (x.y),
+   + +x ) are gone: those trees are now inside [image] and covered by C01_roundtrip (Props.v, ex4).
+   What remains is the DELIBERATE normalisation of the printer: a shape with no elements is printed as its
+   subject (codegen.py: _skip_empty_shapes / visit_Shape).  The harness treats `x {}` == `x` as the documented
+   normalisation N2 (and N2' for the path-flattening consequence below), so these are not findings; they
+   are the exact reason the theorem is stated for [image] (no empty shape) and not for every parser output. *)
 From Coq Require Import List NArith Bool.
 From Verif.C01 Require Import Gen_Grammar Model.
 Import ListNotations.
 
 Definition C01_full : Prop := forall e, (exists ts, parse ts = Some e) -> parse (pp e) = Some e.
 
-Definition five := EConst (CNum KInt) 0 3%N.
-Definition two := EConst (CNum KInt) 0 2%N.
 Definition x := EPathRef None 0%N [].
 
-(* (-5) ^ 2  prints  (-5 ^ 2)  =  -(5 ^ 2) *)
-Definition w_neg_pow : expr := EBin 7%N (EConst (CNum KInt) 1 3%N) two.
-Definition w_neg_pow_src : list tok :=
-  [TSym S_LPAREN; TSym S_MINUS; TNum KInt 3%N; TSym S_RPAREN; TSym S_CIRCUMFLEX; TNum KInt 2%N].
+(* x {}  prints  x *)
+Definition w_empty_shape : expr := EShape x [].
+Definition w_empty_shape_src : list tok := [TId 0%N; TSym S_LBRACE; TSym S_RBRACE].
 
-Lemma w_neg_pow_image : parse w_neg_pow_src = Some w_neg_pow.
+Lemma w_empty_shape_image : parse w_empty_shape_src = Some w_empty_shape.
 Proof. vm_compute. reflexivity. Qed.
-Lemma w_neg_pow_back : parse (pp w_neg_pow) = Some (EUn UMinus (EBin 7%N five two)).
+Lemma w_empty_shape_back : parse (pp w_empty_shape) = Some x.
 Proof. vm_compute. reflexivity. Qed.
 
 Theorem C01_roundtrip_refuted : ~ C01_full.
 Proof.
-  intro H. specialize (H w_neg_pow (ex_intro _ w_neg_pow_src w_neg_pow_image)).
-  rewrite w_neg_pow_back in H. discriminate H.
+  intro H. specialize (H w_empty_shape (ex_intro _ w_empty_shape_src w_empty_shape_image)).
+  rewrite w_empty_shape_back in H. discriminate H.
 Qed.
 Print Assumptions C01_roundtrip_refuted.
 
-(* (NOT x) = 2  prints  (NOT (x) = 2)  =  NOT (x = 2) *)
-Definition w_not_eq : expr := EBin 16%N (EUn UNot x) two.
-Theorem C01_not_eq_refuted :
-  parse [TSym S_LPAREN; TSym S_NOT; TId 0%N; TSym S_RPAREN; TSym S_EQUALS; TNum KInt 2%N] = Some w_not_eq /\
-  parse (pp w_not_eq) = Some (EUn UNot (EBin 16%N x two)).
+(* consequence: (.a {}).b  prints  (.a).b  which is the single partial path  .a.b  *)
+Definition w_empty_shape_path : expr := EPathExpr (EShape (EPathPartial [SPtr false 1%N]) []) [SPtr false 2%N].
+Theorem C01_empty_shape_path_refuted :
+  parse [TSym S_LPAREN; TSym S_DOT; TId 1%N; TSym S_LBRACE; TSym S_RBRACE; TSym S_RPAREN; TSym S_DOT; TId 2%N]
+    = Some w_empty_shape_path /\
+  parse (pp w_empty_shape_path) = Some (EPathPartial [SPtr false 1%N; SPtr false 2%N]).
 Proof. split; vm_compute; reflexivity. Qed.
-Print Assumptions C01_not_eq_refuted.
-
-(* (<T>x) {a}  prints  <T>x {a}  =  <T>(x {a}) *)
-Definition w_shape_cast : expr := EShape (ECast false (TyName None 7%N) x) [(4%N, None)].
-Theorem C01_shape_on_prefix_refuted :
-  parse [TSym S_LPAREN; TSym S_LANGBRACKET; TId 7%N; TSym S_RANGBRACKET; TId 0%N; TSym S_RPAREN;
-         TSym S_LBRACE; TId 4%N; TSym S_RBRACE] = Some w_shape_cast /\
-  parse (pp w_shape_cast) = Some (ECast false (TyName None 7%N) (EShape x [(4%N, None)])).
-Proof. split; vm_compute; reflexivity. Qed.
-Print Assumptions C01_shape_on_prefix_refuted.
-
-(* DETACHED (x.y)  prints  detached x.y  =  (DETACHED x).y *)
-Definition w_detached : expr := EDetached (EPathRef None 0%N [SPtr false 1%N]).
-Theorem C01_detached_postfix_refuted :
-  parse [TSym S_DETACHED; TSym S_LPAREN; TId 0%N; TSym S_DOT; TId 1%N; TSym S_RPAREN] = Some w_detached /\
-  parse (pp w_detached) = Some (EPathExpr (EDetached x) [SPtr false 1%N]).
-Proof. split; vm_compute; reflexivity. Qed.
-Print Assumptions C01_detached_postfix_refuted.
-
-(* + +x  prints  ++x : the two printed characters are the concatenation operator *)
-Definition w_plus_plus : expr := EUn UPlus (EUn UPlus x).
-Theorem C01_lex_refuted :
-  parse [TSym S_PLUS; TSym S_PLUS; TId 0%N] = Some w_plus_plus /\ wf w_plus_plus = true /\
-  no_fuse (pp_items w_plus_plus) = false.
-Proof. repeat split; vm_compute; reflexivity. Qed.
-Print Assumptions C01_lex_refuted.
+Print Assumptions C01_empty_shape_path_refuted.
